@@ -585,13 +585,13 @@ func (x *Exec) appendOp(args []Val, resT types.Type, st *State, reach Term, pos 
 	tArr := sel(h, app("s_reg", t.S))
 	_ = app("s_off", res)
 	// old elements keep their values (triggers on either slice's index term)
-	x.sc.assert(fmt.Sprintf("(forall ((i Int)) (! (=> (and (<= 0 i) (< i (s_len %s))) (= (select %s (sidx %s i)) (select %s (sidx %s i)))) :pattern ((sidx %s i)) :pattern ((sidx %s i))))",
+	x.sc.assert(fmt.Sprintf("(forall ((i Int)) (! (=> (and (<= 0 i) (< i (s_len %s))) (= (select %s (sidx (s_off %s) i)) (select %s (sidx (s_off %s) i)))) :pattern ((sidx (s_off %s) i)) :pattern ((sidx (s_off %s) i))))",
 		s.S, na, res, srcArr, s.S, res, s.S))
 	// appended elements, triggered from the source index ...
-	x.sc.assert(fmt.Sprintf("(forall ((i Int)) (! (=> (and (<= 0 i) (< i %s)) (= (select %s (sidx %s (+ (s_len %s) i))) (select %s (sidx %s i)))) :pattern ((sidx %s i))))",
+	x.sc.assert(fmt.Sprintf("(forall ((i Int)) (! (=> (and (<= 0 i) (< i %s)) (= (select %s (sidx (s_off %s) (+ (s_len %s) i))) (select %s (sidx (s_off %s) i)))) :pattern ((sidx (s_off %s) i))))",
 		tlen, na, res, s.S, tArr, t.S, t.S))
 	// ... and from the result index
-	x.sc.assert(fmt.Sprintf("(forall ((k Int)) (! (=> (and (<= (s_len %s) k) (< k %s)) (= (select %s (sidx %s k)) (select %s (sidx %s (- k (s_len %s)))))) :pattern ((sidx %s k))))",
+	x.sc.assert(fmt.Sprintf("(forall ((k Int)) (! (=> (and (<= (s_len %s) k) (< k %s)) (= (select %s (sidx (s_off %s) k)) (select %s (sidx (s_off %s) (- k (s_len %s)))))) :pattern ((sidx (s_off %s) k))))",
 		s.S, newLen, na, res, tArr, t.S, s.S, res))
 	// in-place case: everything outside the appended window is unchanged
 	x.sc.assert(implies(fits, fmt.Sprintf("(forall ((i Int)) (! (=> (or (< i (+ (s_off %s) (s_len %s))) (>= i (+ (s_off %s) %s))) (= (select %s i) (select %s i))) :pattern ((select %s i))))",
